@@ -253,7 +253,13 @@ pub fn eval_case(case: &Case, st: &mut Stats) -> Vec<Fail> {
                     }
                     for r in g {
                         if r.is_empty() || r == XML_NS {
-                            continue; // statement speaks about real namespaces; xml is always bound
+                            // "no namespace" is not a namespace that could lack a binding, and the xml prefix is
+                            // always bound: neither can be unresolved
+                            fails.push(Fail::new(
+                                format!("unresolved|{}|{}", kind, if r.is_empty() { "no-namespace-reported" } else { "xml-namespace-reported" }),
+                                format!("unresolved_namespaces of {} #{} in {}: reports {:?}", kind, i, show(), g),
+                            ));
+                            continue;
                         }
                         if !may.contains(r) {
                             fails.push(Fail::new(
@@ -415,7 +421,7 @@ pub fn run(tier: Tier) -> i32 {
         vec![("xml", ""), ("p", X)],
     ];
     let un = undecl_menu.len() as u64;
-    let undecl_total = un * un * un * 2;
+    let undecl_total = un * un * un * 2 * 2;
     let with = |name: &str, set: &Vec<(&str, &str)>| {
         let mut e = A::el("", name);
         for (p, u) in set {
@@ -424,8 +430,10 @@ pub fn run(tier: Tier) -> i32 {
         e
     };
     let undecl = par_range(&ctx, undecl_total, |i, st| {
-        let d = mixed(&[un as usize, un as usize, un as usize, 2], i);
-        let c = with("c", &undecl_menu[d[2]]);
+        let d = mixed(&[un as usize, un as usize, un as usize, 2, 2], i);
+        // the innermost element with and without an attribute in the XML namespace (xml must stay usable below
+        // xmlns:xml="")
+        let c = if d[4] == 1 { with("c", &undecl_menu[d[2]]).attr(XML_NS, "space", "default") } else { with("c", &undecl_menu[d[2]]) };
         let b = with("b", &undecl_menu[d[1]]).child(c);
         let a = with("a", &undecl_menu[d[0]]).child(b);
         let case = Case { tree: a, attached: d[3] == 0 };
